@@ -138,7 +138,29 @@ Proof.
   pose proof (do_acquire_outcome s0 t o m blk tm poll skip fuel Hpc Hal Hpr Hh Hfo) as Out. cbv zeta in Out.
   fold s' r in Out. destruct Out as [E|[[E B]|Fin]]; [congruence| |].
   - exfalso. destruct B as [a _ _ Z _|a d _ _ Z _ _ _]; unfold timed_T in Z; rewrite Hb in Z; discriminate.
-  - destruct (Final_time _ _ _ _ _ _ _ _ _ Fin) as (_ & _ & A). split; auto.
+  - destruct (Final_time _ _ _ _ _ _ _ _ _ Fin) as (_ & _ & A & _). split; auto.
+    destruct Fin as [E|d E|E|b E]; try congruence. destruct m; cbn in E; congruence. destruct b, m; cbn in E; congruence.
+Qed.
+
+(* the call's thread running alone (one call at a time): at most one of the two stages waits *)
+Theorem timed_bound_alone_lemma :
+  forall ocfg tcfg fl evs t o m blk tm poll skip fuel T,
+    let s0 := run (init_cfg ocfg tcfg fl) evs in
+    viol s0 = false ->
+    t_pc (thr s0 t) = PIdle -> dead s0 (t_proc (thr s0 t)) = false ->
+    o_proc (objs s0 o) = t_proc (thr s0 t) ->
+    let s' := fst (do_call fuel s0 t (CAcq o m blk tm poll skip)) in
+    let r := snd (do_call fuel s0 t (CAcq o m blk tm poll skip)) in
+    snd (normalise (objs s0 o) blk tm) = TVal T -> r <> ROutOfFuel ->
+    (now s' <= now s0 + T + poll)%N /\ r <> RWouldBlock.
+Proof.
+  intros ocfg tcfg fl evs t o m blk tm poll skip fuel T s0 Hv Hpc Hal Hpr s' r Hb Hr.
+  assert (HI : Inv s0) by (apply Inv_run; [apply Inv_init|exact Hv]). destruct HI as [HT HF].
+  destruct (reach_kernel _ HF) as [Hh Hfo].
+  pose proof (do_acquire_outcome s0 t o m blk tm poll skip fuel Hpc Hal Hpr Hh Hfo) as Out. cbv zeta in Out.
+  fold s' r in Out. destruct Out as [E|[[E B]|Fin]]; [congruence| |].
+  - exfalso. destruct B as [a _ _ Z _|a d _ _ Z _ _ _]; unfold timed_T in Z; rewrite Hb in Z; discriminate.
+  - destruct (Final_time _ _ _ _ _ _ _ _ _ Fin) as (_ & _ & _ & A). split; auto.
     destruct Fin as [E|d E|E|b E]; try congruence. destruct m; cbn in E; congruence. destruct b, m; cbn in E; congruence.
 Qed.
 
